@@ -74,14 +74,16 @@ fn filter_strategy() -> BoxedStrategy<MFilter> {
         prop::option::weighted(0.5, time_near()),
         prop::option::weighted(0.5, time_near()),
         prop::option::weighted(0.3, 0u32..3),
+        prop::bool::weighted(0.2),
     )
-        .prop_map(|(ids, authors, kinds, tags, since, until, limit)| {
-            // distinct names (a filter object cannot repeat a member)
+        .prop_map(|(ids, authors, kinds, tags, since, until, limit, keep_repeats)| {
+            // mostly distinct names (a JSON filter object cannot repeat a member); a filter built from parts can
+            // name a letter in several constraints, each of which must then be satisfied
             let mut seen = Vec::new();
             let tags = tags
                 .into_iter()
                 .filter(|(n, _)| {
-                    if seen.contains(n) {
+                    if seen.contains(n) && !keep_repeats {
                         false
                     } else {
                         seen.push(n.clone());
@@ -127,13 +129,13 @@ impl Prop for C06 {
         "Cases: (filter, event) pairs drawn from small shared pools (5 ids/authors, 6 kinds, times around 100 plus 0/1/u64::MAX, tag names incl. multi-letter and empty, values that are prefixes/NUL-extensions of each other) so that every clause is true about half the time; 45% of pairs are first forced to match and then have at most one clause broken (metamorphic family); 15% are 'straddle' pairs: the event's kind, id or pubkey is not listed but is made of the trailing bytes of one listed entry and the leading bytes of the next (or of the first entry of the following array), all other clauses matching. Filters are built with OwnedFilter::new and, when all names are single letters, also parsed from JSON. Oracle: a 20-line NIP-01 predicate over the models. Non-trivial: >= 2 active clauses including >= 1 tag constraint.".into()
     }
     fn assumptions(&self) -> Vec<String> {
-        vec!["Filter tag constraints always carry a name and names are distinct (a JSON object member per name).".into()]
+        vec!["Filter tag constraints always carry a name; 20% of the filters repeat a name in several constraints (only possible when built from parts), each constraint then has to be satisfied on its own.".into()]
     }
     fn cases(&self, tier: Tier) -> u32 {
         tier.pick(800_000, 4_000_000)
     }
     fn strategy(&self, _tier: Tier) -> BoxedStrategy<Case> {
-        (filter_strategy(), ev_strategy(), any::<bool>(), 0u8..24, any::<u16>())
+        (filter_strategy(), ev_strategy(), any::<bool>(), 0u8..25, any::<u16>())
             .prop_map(|(mut f, mut e, via_json, mode, sel)| {
                 if mode < 9 {
                     force_match(&mut f, &e);
@@ -168,7 +170,20 @@ impl Prop for C06 {
                         f.kinds.push(e.kind.wrapping_add(1));
                     }
                 }
-                if mode >= 20 {
+                if mode == 24 {
+                    // 60..90 tag constraints (only a filter built from parts can have that many): each satisfied by one of
+                    // the event's tags, except - half of the time - exactly one, at a position of its own
+                    let valued: Vec<(String, String)> = e.tags.iter().filter(|t| t.len() >= 2).map(|t| (t[0].clone(), t[1].clone())).collect();
+                    if !valued.is_empty() {
+                        force_match(&mut f, &e);
+                        let n = 60 + (sel as usize % 31);
+                        f.tags = (0..n).map(|i| { let (a, b) = valued[i % valued.len()].clone(); (a, vec![b, format!("other{i}")]) }).collect();
+                        if sel & 0x8000 != 0 {
+                            let k = (sel as usize >> 5) % n;
+                            f.tags[k].1 = vec![format!("nothing-has-this-value-{k}")];
+                        }
+                    }
+                } else if mode >= 20 {
                     // "straddle" family: the event carries a value that is not listed but whose bytes appear in the
                     // filter's packed arrays across the boundary of two neighbouring entries; every other clause is
                     // made to match, so the answer hangs on that clause alone
@@ -263,7 +278,13 @@ impl Prop for C06 {
                 return out;
             }
         }
-        let single = c.f.tags.iter().all(|(n, _)| n.len() == 1 && n.as_bytes()[0].is_ascii_alphabetic());
+        let mut names: Vec<&String> = c.f.tags.iter().map(|(n, _)| n).collect();
+        names.sort();
+        names.dedup();
+        let single = names.len() == c.f.tags.len() && c.f.tags.iter().all(|(n, _)| n.len() == 1 && n.as_bytes()[0].is_ascii_alphabetic());
+        if names.len() != c.f.tags.len() {
+            out.label("repeated-constraint-names");
+        }
         if c.via_json && single {
             out.label("via-json");
             let text = render_filter(&c.f, &Plan::default());
